@@ -793,6 +793,9 @@ func execSched(spec *RunSpec, st *Stats) *Violation {
 				if op.Kind == "PkgConvert" {
 					cfg = Config{}
 				}
+				if op.Kind == "AuxConvert" {
+					cfg = *op.Aux
+				}
 				if op.Fault == nil {
 					ref := refModel.Get(cfg, pristine[op.Doc])
 					if ref.out == nil {
@@ -950,6 +953,7 @@ func execSched(spec *RunSpec, st *Stats) *Violation {
 			}
 			if st != nil {
 				st.Inc("checked_ops")
+				st.Inc("op." + op.Kind)
 				if op.Fault != nil && res.Sink != nil && res.Sink.fired != "" {
 					st.Inc("fired." + res.Sink.fired)
 				}
